@@ -15,7 +15,7 @@ import (
 func init() {
 	register(&Prop{
 		ID:          "C18",
-		Explanation: "Decides where cookie attributes can come from: http.Cookie values are allocated only in MakeCookieFromOptions, copyCookie and the name validator; every argument of http.SetCookie derives from MakeCookieFromOptions (directly, through the makeCookie wrappers, splitCookie or copyCookie) and no Set-Cookie header is written by hand; in the constructor Path, HttpOnly, Secure, SameSite are wired from the same-named options (SameSite through ParseSameSite), Name and Value from the parameters, and Domain is GetCookieDomain(req, opts.Domains) or, only when that is empty and domains are configured, the last configured domain; GetCookieDomain returns an element of the list only under HasSuffix(request host, element), scanning in list order; fields of an existing cookie are stored only by the constructors, splitCookie (Name, Value) and joinCookies (Name, Value); copyCookie copies every attribute field of http.Cookie; deletions reuse the setter's name expression and options and the cookie store deletes each presented cookie under its presented name (shared with C11); validation sorts the configured domains longest-first and nothing reorders or writes that list afterwards. Added during the build: the request host is compared with cookie domains only after its port was removed, in the selector as in the warning helper (R6). Round 3: every WithContext/Clone of the inbound request keeps a context derived from its own Context() (R7).",
+		Explanation: "Decides where cookie attributes can come from: http.Cookie values are allocated only in MakeCookieFromOptions, copyCookie and the name validator; every argument of http.SetCookie derives from MakeCookieFromOptions (directly, through the makeCookie wrappers, splitCookie or copyCookie) and no Set-Cookie header is written by hand; in the constructor Path, HttpOnly, Secure, SameSite are wired from the same-named options (SameSite through ParseSameSite), Name and Value from the parameters, and Domain is GetCookieDomain(req, opts.Domains) or, only when that is empty and domains are configured, the last configured domain; GetCookieDomain returns an element of the list only under HasSuffix(request host, element), scanning in list order; fields of an existing cookie are stored only by the constructors, splitCookie (Name, Value) and joinCookies (Name, Value); copyCookie copies every attribute field of http.Cookie; deletions reuse the setter's name expression and options and the cookie store deletes each presented cookie under its presented name (shared with C11); validation sorts the configured domains longest-first and nothing reorders or writes that list afterwards. Added during the build: the request host is compared with cookie domains only after its port was removed, in the selector as in the warning helper (R6). Round 3: every WithContext/Clone of the inbound request keeps a context derived from its own Context() (R7). Round 4: request-reachable code never writes a field of the shared options.Cookie (R8, shared with C09.R9).",
 		NotDecided:  "the 4096-byte bound (arithmetic over sizes), suffix-match semantics of domain selection including host-with-port (values), what http.Cookie.String() emits.",
 		Run:         runC18,
 	})
@@ -34,6 +34,7 @@ func runC18(c *Ctx) {
 	r.Rule("R4-deletions", "deletions reuse name and options of the setters; cookie store deletes under the presented name", 8)
 	r.Rule("R6-host-port-free", "the request host is compared with cookie domains only with its port removed (selector and warning helper agree)", 2)
 	r.Rule("R7-request-context-kept", "every WithContext/Clone of the inbound request keeps a context derived from its own Context() (the request scope lives there)", 2)
+	r.Rule("R8-cookie-options-frozen", "request-reachable code never writes a field of the shared options.Cookie, so the attributes every later cookie is built from stay the configured ones (shared with C09.R9)", 1)
 	r.Rule("R5-domain-order", "validation sorts domains longest-first; the list is never reordered or written afterwards", 4)
 
 	mk := c.Fn("R1-single-constructor", "pkg/cookies.MakeCookieFromOptions")
@@ -51,6 +52,7 @@ func runC18(c *Ctx) {
 	runC18R2(c, mk)
 	runC18R6(c, "R6-host-port-free")
 	runRequestContextKept(c, "R7-request-context-kept")
+	runC09R9(c, "R8-cookie-options-frozen")
 
 	// ---- R3 ---------------------------------------------------------------------------------
 	rule = "R3-no-later-rewrite"
